@@ -1,15 +1,15 @@
 #!/usr/bin/env python3
 import json, os
 res = {}
-for f in ('/var/tmp/seeded_results.json', '/var/tmp/seeded_results2.json', '/var/tmp/seeded_results3.json'):
+for f in ('/var/tmp/seeded_results.json', '/var/tmp/seeded_results2.json', '/var/tmp/seeded_results3.json', '/var/tmp/seeded_results4.json'):
     if os.path.exists(f): res.update(json.load(open(f)))
 ver = {}
-for f in ('/var/tmp/seeded_verify1.json', '/var/tmp/seeded_verify2.json', '/var/tmp/seeded_verify3.json'):
+for f in ('/var/tmp/seeded_verify1.json', '/var/tmp/seeded_verify2.json', '/var/tmp/seeded_verify3.json', '/var/tmp/seeded_verify4.json'):
     if os.path.exists(f): ver.update(json.load(open(f)))
 rows = []
 for d in sorted(os.listdir('/verif/seeded')):
     p = f'/verif/seeded/{d}'
-    if not os.path.isdir(p): continue
+    if not os.path.isdir(p) or not os.path.exists(p + '/meta.json'): continue
     m = json.load(open(p + '/meta.json'))
     r, v = res.get(d), ver.get(d)
     if v:
